@@ -33,6 +33,10 @@ SLOTS = {
     "generic": ("proc", "M"),
     "deferred": ("absint", "M"),
     "constructor": ("proc", "M"),
+    # `procedure(x), pointer :: p` where the scopes declare x as different kinds: an abstract interface outside and a procedure
+    # (interface body / internal procedure) inside, or the other way round - the innermost declaration is meant whatever its kind
+    "ppi-cross-ap": ("absint", "PI"),
+    "ppi-cross-pa": ("proc", "PI"),
     # a deferred binding has an interface but no target: procedures that happen to carry the binding's name are not its target
     "deferred-name": ("proc", "M"),
 }
@@ -104,7 +108,7 @@ def ref_lines(slot, refname):
         return [f"type({refname}) :: refv"], []
     if slot == "extends":
         return [f"type, extends({refname}) :: reft", "end type reft"], []
-    if slot in ("ppi-absint", "ppi-proc"):
+    if slot in ("ppi-absint", "ppi-proc", "ppi-cross-ap", "ppi-cross-pa"):
         return [f"procedure({refname}), pointer :: refpp"], []
     if slot == "call":
         return [], [f"call {refname}(1)"]
@@ -140,7 +144,20 @@ def use_line(useform, dname, rname):
 
 
 def build(slot, scope, present, case, order, useform=DEFAULT_USE):
-    kind = SLOTS[slot][0]
+    kind0 = SLOTS[slot][0]
+    INNER = ("self", "child", "sibling", "sibling2", "hostproc")
+
+    class _Kind(str):
+        pass
+
+    def kind_at(pl):
+        if slot == "ppi-cross-ap":
+            return "proc" if pl in INNER else "absint"
+        if slot == "ppi-cross-pa":
+            return "absint" if pl in INNER else "proc"
+        return kind0
+
+    kind = kind0
     dname = {"lower": X, "mixed": "Xq", "refupper": X}[case]
     rname = {"lower": X, "mixed": X, "refupper": "XQ"}[case]
     files = {}
@@ -148,7 +165,7 @@ def build(slot, scope, present, case, order, useform=DEFAULT_USE):
     lib = []
     reexport = useform[2] == "reexport"
     for mod, pl in (("otherm", "other"), ("usedm", "used")):
-        s, c = decl(kind, pl, dname) if pl in present else ([], [])
+        s, c = decl(kind_at(pl), pl, dname) if pl in present else ([], [])
         if slot == "constructor" and pl in present:
             s, c = [f"interface {dname}", f"  module procedure ctor_{pl}", "end interface"], [f"function ctor_{pl}(a_{pl})", f"  integer :: a_{pl}, ctor_{pl}", f"end function ctor_{pl}"]
         if mod == "usedm":
@@ -164,7 +181,7 @@ def build(slot, scope, present, case, order, useform=DEFAULT_USE):
     uline = use_line(useform, dname, rname)
     use_in_self = useform[0] == "self" and scope != "M"
     if "external" in present:
-        files["src/z_ext.f90"] = "\n".join(decl(kind, "external", dname)[1]) + "\n"
+        files["src/z_ext.f90"] = "\n".join(decl("proc", "external", dname)[1]) + "\n"
     rs, rb = ref_lines(slot, rname)
 
     def local(pl, as_iface=False):
@@ -172,7 +189,7 @@ def build(slot, scope, present, case, order, useform=DEFAULT_USE):
             return [], []
         if slot == "constructor":
             return [f"interface {dname}", f"  module procedure ctor_{pl}", "end interface"], [f"function ctor_{pl}(a_{pl})", f"  integer :: a_{pl}, ctor_{pl}", f"end function ctor_{pl}"]
-        return decl(kind, pl, dname, as_iface)
+        return decl(kind_at(pl), pl, dname, as_iface)
 
     # module level
     m_spec, m_cont = local("module")
@@ -247,7 +264,7 @@ def observe(project, slot, scope):
     if slot == "vartype":
         v = [v for v in ref.variables if v.name == "refv"][0]
         return tag_of(v.proto[0])
-    if slot in ("ppi-absint", "ppi-proc"):
+    if slot in ("ppi-absint", "ppi-proc", "ppi-cross-ap", "ppi-cross-pa"):
         v = [v for v in ref.variables if v.name == "refpp"][0]
         return tag_of(v.proto[0])
     if slot == "extends":
